@@ -405,6 +405,9 @@ def inline_function(repo, rel: str, qual: str, func: ast.FunctionDef, depth: int
             inliner.inlined.append(qual_name)
             return _Rename({}, subst).visit(clone(expr))
     new = Expand().visit(new)
+    if inliner.inlined:
+        from .desugar import desugar_function
+        desugar_function(new)
     ast.fix_missing_locations(new)
     link_parents(new, getattr(func, "_parent", None))
     return new, inliner.inlined
